@@ -35,7 +35,7 @@ LenU == 65536      \* lengths of the generated trees are multiples of 1/16  (= 6
 SupU == 16384      \* supports are multiples of 1/64
 
 GrowthPreds == {"G_Rooted", "G_SumLength", "G_MeanLength", "G_MeanSupport", "G_MedianSupport", "G_Cherries", "G_Colless",
-                "G_Sackin", "G_EdgeRows", "G_EdgeIds", "G_NodeRows", "G_TipLengths", "G_TreeId", "G_DumpedTipOrder"}
+                "G_Sackin", "G_EdgeRows", "G_EdgeIds", "G_NodeRows", "G_TipLengths", "G_TreeId", "G_DumpedTipOrder", "G_StatsTableLayout"}
 
 TipsUnder(V, n)   == {t \in V.tips : n \in V.anc[t]}
 DepthRooted(V, n) == MinOf({Cardinality(V.anc[t]) - Cardinality(V.anc[n]) : t \in TipsUnder(V, n)})
@@ -58,6 +58,7 @@ SortedSups(V) ==
   IN  SortSeq(vals, LAMBDA a, b : a < b)
 
 F_StatsSummary(V, id, res) ==
+  IF "unparsed" \in DOMAIN res THEN {"G_StatsTableLayout"} ELSE
   LET E      == Cardinality(NonRoot(V))
       I      == InnerBr(V)
       nolen  == \E n \in NonRoot(V) : BrOf(V, n).len = NIL
@@ -86,6 +87,7 @@ F_StatsSummary(V, id, res) ==
 
 \* rows: [brid, len, sup, term, depth, topo, rdepth, rname, lname]
 F_StatsEdges(V, id, res) ==
+  IF "unparsed" \in DOMAIN res THEN {"G_StatsTableLayout"} ELSE
   LET rows == res.rows
       k    == Len(rows)
       D    == TLCEval([n \in V.nodes |-> NodeDepth(V, n)])
@@ -101,6 +103,7 @@ F_StatsEdges(V, id, res) ==
 
 \* header: the printed tip names; rows: [id, blen, ones (names whose bit is set)]
 F_StatsSplits(T, V, id, res) ==
+  IF "unparsed" \in DOMAIN res THEN {"G_StatsTableLayout"} ELSE
   LET k == Len(res.rows)
       N == Cardinality(V.names)
   IN  Fail("G_DumpedTipOrder", res.header = Reverse(T.rank))
@@ -111,6 +114,7 @@ F_StatsSplits(T, V, id, res) ==
 
 \* rows: [nid, nneigh, name, depth, up, downs]
 F_StatsNodes(V, id, res) ==
+  IF "unparsed" \in DOMAIN res THEN {"G_StatsTableLayout"} ELSE
   LET rows == res.rows
       k    == Len(rows)
       exp(n) == [nneigh |-> V.deg[n], name |-> V.nm[n], depth |-> NodeDepth(V, n),
@@ -126,6 +130,7 @@ F_StatsNodes(V, id, res) ==
 \* rows: [nneigh, name, ext4, rtt4]; an absent length is printed as -1 and counts as -1 in the root-to-tip sum (RTTAbsent)
 RTT16(V, t) == SumOver(V.anc[t] \ {V.root}, LAMBDA n : IF BrOf(V, n).len = NIL THEN -16 ELSE BrOf(V, n).len \div LenU)
 F_StatsTips(V, id, res) ==
+  IF "unparsed" \in DOMAIN res THEN {"G_StatsTableLayout"} ELSE
   LET rows == res.rows
       k    == Len(rows)
       tb   == TLCEval(TipByName(V))
